@@ -35,6 +35,7 @@ func Setup_C09_fallbacks() { Setup_C09_http() }
 // executed (this is "a resolver ran").
 type hES struct {
 	execs []string
+	quiet bool // do not record (the harness that freezes the server graph must not write into it itself)
 }
 
 func (e *hES) Schema() *ast.Schema { return hSchema }
@@ -43,6 +44,9 @@ func (e *hES) Complexity(ctx context.Context, typeName, fieldName string, childC
 }
 func (e *hES) Exec(ctx context.Context) graphql.ResponseHandler {
 	op := graphql.GetOperationContext(ctx).Operation
+	if e.quiet {
+		return graphql.OneShot(&graphql.Response{Data: []byte(`{"ok":true}`)})
+	}
 	e.execs = append(e.execs, string(op.Operation)+":"+op.Name)
 	zzsym.Event("exec", string(op.Operation), op.Name)
 	return graphql.OneShot(&graphql.Response{Data: []byte(`{"ok":true}`)})
@@ -369,4 +373,110 @@ func Harness_C09_sequence() {
 		zzsym.Assert(len(es.execs) == 0 && w.status >= 400, "the second request is refused on its own merits")
 		zzsym.Reach("seq.refused")
 	}
+}
+
+func Setup_C07_noPersistentWrites() { Setup_C09_http() }
+
+// Harness_C07_noPersistentWrites: serving a request (any of 4 transports, any
+// corpus document, malformed bodies included) stores nothing into state that
+// outlives it: the server / executor / transport objects and every
+// package-level variable of gqlgen's runtime packages and of gqlparser stay
+// untouched (the pooled POST parameters are handled by C07's pool harness, a
+// configured query cache / APQ store is the only permitted memory).
+func Harness_C07_noPersistentWrites() {
+	es := &hES{quiet: true}
+	srv := hServer(es, hRespHdrs[zzsym.Choice("resphdr", 2)].hdr)
+	r := &http.Request{Header: http.Header{}, URL: &url.URL{Path: "/query"}}
+	d := hDocs[zzsym.Choice("doc", len(hDocs))]
+	switch zzsym.Choice("transport", 4) {
+	case 0:
+		r.Method = "GET"
+		v := url.Values{}
+		v.Set("query", d.query)
+		if d.op != "" {
+			v.Set("operationName", d.op)
+		}
+		r.URL.RawQuery = v.Encode()
+		r.Body = http.NoBody
+	case 1:
+		r.Method = "POST"
+		r.Header.Set("Content-Type", "application/json")
+		r.Body = io.NopCloser(strings.NewReader(hJSONBody(d)))
+	case 2:
+		r.Method = "POST"
+		r.Header.Set("Content-Type", "application/graphql")
+		r.Body = io.NopCloser(strings.NewReader(d.query))
+	case 3:
+		r.Method = "POST"
+		r.Header.Set("Content-Type", "application/x-www-form-urlencoded")
+		r.Body = io.NopCloser(strings.NewReader(hJSONBody(d)))
+	}
+	// warm-up: lazily initialised tables (header canonicalisation, mime) are filled by a first request
+	srv.ServeHTTP(newHWriter(), &http.Request{Method: "GET", Header: http.Header{"Accept": {"application/json"}}, URL: &url.URL{Path: "/query", RawQuery: "query=%7Bme%7Bid%7D%7D"}, Body: http.NoBody})
+	zzsym.Frozen("server", srv)
+	zzsym.FrozenGlobals("runtime-globals", "github.com/99designs/gqlgen/graphql", "github.com/vektah/gqlparser/v2")
+	w := newHWriter()
+	srv.ServeHTTP(w, r)
+	hCheckBody(w)
+	zzsym.Reach("c07.frozen")
+}
+
+func Setup_C04_servePanic() { Setup_C09_http() }
+
+type hBadES struct{ hES }
+
+func (e *hBadES) Exec(ctx context.Context) graphql.ResponseHandler {
+	// a response whose data cannot be serialised: writeJson panics while marshalling it
+	return graphql.OneShot(&graphql.Response{Data: []byte(`{"a":`)})
+}
+
+// Harness_C04_servePanic: a panic raised while serialising the response
+// fails only that response: a well-formed JSON error body with a client /
+// server error status, the recover hook invoked exactly once, and the server
+// keeps serving the next request.
+func Harness_C04_servePanic() {
+	es := &hBadES{}
+	srv := New(es)
+	srv.AddTransport(transport.GET{})
+	srv.AddTransport(transport.POST{})
+	srv.AddTransport(transport.GRAPHQL{})
+	recovers := 0
+	srv.SetRecoverFunc(func(ctx context.Context, err any) error {
+		recovers++
+		return gqlerror.Errorf("internal system error")
+	})
+	r := &http.Request{Header: http.Header{}, URL: &url.URL{Path: "/query"}}
+	switch zzsym.Choice("transport", 3) {
+	case 0:
+		r.Method = "GET"
+		r.URL.RawQuery = "query=%7Bme%7Bid%7D%7D"
+		r.Body = http.NoBody
+	case 1:
+		r.Method = "POST"
+		r.Header.Set("Content-Type", "application/json")
+		r.Body = io.NopCloser(strings.NewReader(`{"query":"{ me { id } }"}`))
+	case 2:
+		r.Method = "POST"
+		r.Header.Set("Content-Type", "application/graphql")
+		r.Body = io.NopCloser(strings.NewReader(`{ me { id } }`))
+	}
+	w := newHWriter()
+	panicked := func() (p bool) {
+		defer func() {
+			if rec := recover(); rec != nil {
+				p = true
+			}
+		}()
+		srv.ServeHTTP(w, r)
+		return false
+	}()
+	zzsym.Assert(!panicked, "the panic does not escape ServeHTTP")
+	zzsym.Assert(recovers == 1, "the recover hook runs exactly once")
+	hCheckBody(w)
+	var resp struct {
+		Errors []map[string]any `json:"errors"`
+	}
+	zzsym.Assert(json.Unmarshal(w.body.Bytes(), &resp) == nil && len(resp.Errors) == 1, "the body is a GraphQL error response")
+	zzsym.Assert(w.status >= 400, "the failed response is answered with an error status")
+	zzsym.Reach("c04.serve")
 }
